@@ -8,4 +8,5 @@ MCProg == (1 :> <<[api |-> "set", key |-> "k1", val |-> "a", chunks |-> 1], [api
 MCPre == {[key |-> "k3", val |-> "o3"]}
 MCKeyShards == ("k1" :> <<0, 1>>) @@ ("k2" :> <<0, 1>>) @@ ("k3" :> <<1, 0>>)
 NoDebris == {}
+NoPreRO == {}
 ====
